@@ -313,6 +313,16 @@ class Program:
                     return None
                 vals.append(y)
             return ast.Dict(keys=list(v.keys), values=vals)
+        if isinstance(v, ast.Call) and dotted(v.func) is not None and \
+                getattr(self, '_record_module', None) is not None and \
+                self.record_fields(self._record_module, v.func):
+            # a namedtuple instance with constant fields
+            if all(self._immutable_literal(a, names_ok) is not None
+                   for a in v.args) and all(
+                       k.arg and self._immutable_literal(
+                           k.value, names_ok) is not None
+                       for k in v.keywords):
+                return v
         frozen = False
         if isinstance(v, ast.Call) and isinstance(v.func, ast.Name) and \
                 v.func.id in ('frozenset', 'tuple') and not v.keywords:
@@ -388,7 +398,11 @@ class Program:
             v = module.assigns.get(nm)
             if v is None:
                 continue
-            lit = self._immutable_literal(v, names_ok)
+            self._record_module = module
+            try:
+                lit = self._immutable_literal(v, names_ok)
+            finally:
+                self._record_module = None
             if lit is not None:
                 out[nm] = lit
         setattr(module, key, out)
